@@ -114,7 +114,8 @@ def mem_cases(draw, nev):
                 evs.append(["poke", row, draw(INT(0, (1 << w) - 1)) if w else 0])
             else:
                 evs.append(["peek", row])
-    return {"shape": sh, "depth": depth, "init": init, "wports": wports, "rports": rports, "events": evs}
+    return {"shape": sh, "depth": depth, "init": init, "wports": wports, "rports": rports, "events": evs,
+            "decoy": draw(INT(0, 2)) > 0}
 
 
 def to_py(shape_desc, shape_obj, raw):
@@ -214,13 +215,21 @@ class Model:
         self.comb()
 
 
-def build(case):
+def build(case, decoy=False):
     sh = build_shape(case["shape"])
     w = shape_width(case["shape"])
     init = [to_py(case["shape"], sh, v) for v in case["init"]]
     m = Module()
     cds = {"a": ClockDomain("a", reset_less=True), "b": ClockDomain("b", reset_less=True)}
     m.domains += cds.values()
+    if decoy:
+        # another memory with write ports of its own, declared first in the same module: port numbering and
+        # transparency masks of the memory under test must not depend on it
+        m.submodules.decoy = dm = Memory(shape=2, depth=2, init=[1, 2])
+        dw0, dw1 = dm.write_port(domain="a"), dm.write_port(domain="a")
+        dr = dm.read_port(domain="a", transparent_for=[dw1])
+        keep = Signal(2, name="decoy_keep")
+        m.d.comb += [dw0.addr.eq(0), dw1.addr.eq(1), keep.eq(dr.data)]
     m.submodules.mem = mem = Memory(shape=sh, depth=case["depth"], init=init)
     wps = [mem.write_port(domain=wp["dom"], granularity=wp["gran"]) for wp in case["wports"]]
     rps = [mem.read_port(domain=rp["dom"], transparent_for=[wps[j] for j in rp["transparent"]]) for rp in case["rports"]]
@@ -318,9 +327,10 @@ def rtlil_body(ctx, case):
     full = (1 << w) - 1
     with warnings.catch_warnings():
         warnings.simplefilter("ignore")
-        m, cds, mem, wps, rps, sh = build(case)
+        decoy = bool(case.get("decoy"))
+        m, cds, mem, wps, rps, sh = build(case, decoy)
         sim = Simulator(m)
-        m2, cds2, mem2, wps2, rps2, sh2 = build(case)
+        m2, cds2, mem2, wps2, rps2, sh2 = build(case, decoy)
         pd = {}
         for i, wp in enumerate(wps2):
             pd[f"w{i}_addr"] = (wp.addr, None); pd[f"w{i}_data"] = (Value.cast(wp.data), None); pd[f"w{i}_en"] = (wp.en, None)
@@ -334,7 +344,8 @@ def rtlil_body(ctx, case):
     ev = RE.Evaluator(RR.parse(text))
     init = {"\\" + n: (s.init & ((1 << len(s)) - 1)) for n, (s, _) in pd.items() if "\\" + n in ev.inputs}
     ev.set_inputs(init)
-    mempath = next(iter(ev.mems)) if ev.mems else None
+    mempaths = [k for k in ev.mems if "decoy" not in "".join(k)]
+    mempath = mempaths[0] if mempaths else None
     stats = dict(compared=0, masked=0, collision=False)
     fail = []
 
@@ -396,7 +407,7 @@ def rtlil_body(ctx, case):
         sim.run()
     if fail:
         raise fail[0]
-    keys = ["rtl:memory"]
+    keys = ["rtl:memory"] + (["rtl:second-memory-in-module"] if decoy else [])
     if any(len(rp["transparent"]) >= 1 for rp in case["rports"]) and len(case["wports"]) >= 2: keys.append("rtl:transparency-with-several-write-ports")
     if stats["collision"]: keys.append("rtl:collision")
     if any(rp["dom"] == "comb" for rp in case["rports"]): keys.append("rtl:async-read")
@@ -423,4 +434,4 @@ REQUIRED = ["mem:shape-u", "mem:shape-s", "mem:shape-array", "mem:shape-struct",
             "mem:opaque_collision", "mem:cross_domain_collision", "mem:write_beyond_depth", "mem:read_beyond_depth",
             "mem:partial_write", "mem:poke", "mem:coincident_edges", "mem:write_write_collision",
             "mem:write-ports-in-two-domains", "rtl:memory", "rtl:transparency-with-several-write-ports", "rtl:collision",
-            "rtl:async-read"]
+            "rtl:async-read", "rtl:second-memory-in-module"]
